@@ -23,8 +23,9 @@ import (
 )
 
 type job struct {
-	Src  string
-	Reps int
+	Src   string
+	Reps  int
+	Alias bool // ports 1 and 2 are one *Port
 }
 
 type answer struct {
@@ -47,7 +48,7 @@ func countFds() int {
 // below) the baseline; a slow machine must not look like a leak, so it keeps
 // waiting while the counts still move, gives up only after they have not
 // changed for 1.5 s (a stable surplus), and never waits longer than the deadline.
-func settle(g0, fd0 int, deadline time.Duration) (int, int) {
+func settle(g0, fd0 int, deadline, stable time.Duration) (int, int) {
 	end := time.Now().Add(deadline)
 	lastG, lastFd, lastChange := -1, -1, time.Now()
 	for {
@@ -56,7 +57,7 @@ func settle(g0, fd0 int, deadline time.Duration) (int, int) {
 		if g != lastG || fd != lastFd {
 			lastG, lastFd, lastChange = g, fd, time.Now()
 		}
-		if (g <= g0 && fd <= fd0) || time.Now().After(end) || time.Since(lastChange) > 1500*time.Millisecond {
+		if (g <= g0 && fd <= fd0) || time.Now().After(end) || time.Since(lastChange) > stable {
 			return g, fd
 		}
 		time.Sleep(5 * time.Millisecond)
@@ -105,6 +106,9 @@ func runJob(dir string, j job) (a answer) {
 	}
 	defer func() { close(ch1); close(ch2); dw.Wait() }()
 	ports := []*eval.Port{{File: eval.DevNull, Chan: eval.ClosedChan}, {File: null, Chan: ch1}, {File: null, Chan: ch2}}
+	if j.Alias {
+		ports[2] = ports[1]
+	}
 
 	// The context of a repetition is cancelled only by verif:cancel: a goroutine
 	// that waits for the end of the context is a leak when the context never
@@ -142,8 +146,8 @@ func runJob(dir string, j job) (a answer) {
 		debug.SetGCPercent(oldGC)
 		runtime.GC()
 	}()
-	g0, fd0 := settle(0, 0, 300*time.Millisecond)
-	g0, fd0 = settle(g0, fd0, 200*time.Millisecond)
+	g0, fd0 := settle(0, 0, 5*time.Second, 60*time.Millisecond)
+	g0, fd0 = settle(g0, fd0, 5*time.Second, 60*time.Millisecond)
 	a.Outcome = first
 	for i := 0; i < j.Reps; i++ {
 		if o := once(); o != a.Outcome {
@@ -152,7 +156,7 @@ func runJob(dir string, j job) (a answer) {
 			break
 		}
 	}
-	g1, fd1 := settle(g0, fd0, 30*time.Second)
+	g1, fd1 := settle(g0, fd0, 30*time.Second, 1500*time.Millisecond)
 	a.FdGrow, a.GorGrow = fd1-fd0, g1-g0
 	return
 }
